@@ -14,6 +14,7 @@ import (
 	"testing"
 
 	"github.com/dominant-strategies/go-quai/common"
+	"github.com/dominant-strategies/go-quai/core/types"
 	"github.com/dominant-strategies/go-quai/crypto"
 	"github.com/dominant-strategies/go-quai/rlp"
 
@@ -456,6 +457,59 @@ func TestC16Classify(t *testing.T) {
 		}
 		if i < 2 {
 			m.Sample(map[string]any{"path": "PubkeyToAddress", "address": hex.EncodeToString(crypto.PubkeyToAddress(key.PublicKey, locs[4].Loc).Bytes())})
+		}
+	}
+	// ---- the sender address a signer recovers from a signature: cold object, an object whose sender was
+	// memoised under ANOTHER node location, and an object that was only hashed before (Hash() recovers and
+	// memoises the sender with a location-less throw-away signer)
+	rs := m.Rand("senders")
+	nSend := m.N(600, 8000)
+	chainID := big.NewInt(9000)
+	zls := zoneLocs()
+	for i := 0; i < nSend; i++ {
+		d := make([]byte, 32)
+		rs.Read(d)
+		key, err := crypto.ToECDSA(d)
+		if err != nil {
+			m.Trivial()
+			continue
+		}
+		la, lb := zls[rs.Intn(len(zls))], zls[rs.Intn(len(zls))]
+		to := common.BytesToAddress(make([]byte, 20), la.Loc)
+		inner := &types.QuaiTx{ChainID: chainID, Nonce: uint64(i), GasPrice: big.NewInt(1), Gas: 21000, To: &to, Value: big.NewInt(1)}
+		signed, err := types.SignNewTx(key, types.NewSigner(chainID, la.Loc), inner)
+		if err != nil {
+			m.Trivial()
+			continue
+		}
+		fresh := func() *types.Transaction { // as it arrives from the wire: no memoised sender
+			pt, _ := signed.ProtoEncode()
+			t := new(types.Transaction)
+			if t.ProtoDecode(pt, la.Loc) != nil {
+				return nil
+			}
+			return t
+		}
+		rec := func(path string, t *types.Transaction, l nloc) {
+			if t == nil {
+				return
+			}
+			a, err := types.Sender(types.NewSigner(chainID, l.Loc), t)
+			if err != nil {
+				return
+			}
+			o := observe(a)
+			judge(s, path, l, to20(a.Bytes()), o, func() any { return []pathRes{{path, o}} })
+		}
+		rec("Sender:cold", fresh(), lb)
+		if t := fresh(); t != nil {
+			types.Sender(types.NewSigner(chainID, la.Loc), t) // memoise under location A
+			rec("Sender:memoised-under-another-location", t, lb)
+			rec("Sender:memoised-then-original-location", t, la)
+		}
+		if t := fresh(); t != nil {
+			_ = t.Hash()
+			rec("Sender:after-Hash", t, lb)
 		}
 	}
 	rc := m.Rand("create")
